@@ -133,3 +133,6 @@ def run(prog, rep, tier, cfg):
             if callee_is('expiration::check_expired')(c):
                 X.arg_has('K10', 'registry:claims-expiry-epoch', c, 3, ['C:Runtime::curr_epoch'], 'expiry judged at the current epoch', narrow=False)
                 X.arg_has('K10', 'registry:claims-expiry-candidates', c, 1, ['F:RemoveExpiredClaimsParams.claim_ids'], 'for the requested ids', narrow=False)
+    # ---- running totals (amounts, power, datacap) accumulated in loops keep their earlier contributions
+    X.accumulator_integrity('K12', 'running-totals', ['fil_actor_miner', 'fil_actor_verifreg'], 'running totals of amounts')
+
